@@ -45,7 +45,12 @@ type link struct {
 	rd        chan struct{}
 	faults    []*linkFault
 	werr      *linkFault // a write error when the writer has written Offset bytes (Kind "writeerr")
-	net       *Net
+	// frozen: the reader's side has stopped taking bytes (a wedged peer): nothing is delivered any more, what is
+	// written piles up, and once capacity bytes are queued a Write blocks until the connection ends
+	frozen   bool
+	capacity int
+	wr       chan struct{} // wakes a blocked writer
+	net      *Net
 }
 
 // linkFault fires when exactly Offset bytes have been delivered on the link.
@@ -60,6 +65,20 @@ func (l *link) wake() {
 	case l.rd <- struct{}{}:
 	default:
 	}
+	if l.wr != nil {
+		select {
+		case l.wr <- struct{}{}:
+		default:
+		}
+	}
+}
+
+func (l *link) queued() int {
+	n := len(l.buf)
+	for _, b := range l.inflight {
+		n += len(b)
+	}
+	return n
 }
 
 // Conn is one end of a simulated stream connection.
@@ -132,6 +151,15 @@ func (c *Conn) Write(p []byte) (int, error) {
 	l := c.out
 	l.mu.Lock()
 	defer l.mu.Unlock()
+	for l.capacity > 0 && l.queued() >= l.capacity && !l.reset && !l.wclosed && !l.closed && !l.silent {
+		// the peer's buffer and ours are full: block like a socket write does, until something gives
+		if s := verifsim.Current(); s != nil {
+			s.Fault("write-blocked-on-full-buffer")
+		}
+		l.mu.Unlock()
+		<-l.wr
+		l.mu.Lock()
+	}
 	if l.reset {
 		return 0, resetErr("write")
 	}
@@ -235,6 +263,17 @@ func (c *Conn) Kill(kind string) {
 		l.mu.Unlock()
 		l.wake()
 	}
+}
+
+// freeze: the reader of link l stops reading; the writer can queue cap more bytes before it blocks.
+func (l *link) freeze(cap int) {
+	l.mu.Lock()
+	l.frozen = true
+	l.capacity = l.queued() + cap
+	if l.wr == nil {
+		l.wr = make(chan struct{}, 1)
+	}
+	l.mu.Unlock()
 }
 
 // Listener is a simulated net.Listener.
@@ -436,7 +475,11 @@ func (n *Net) fire(l *link, c *Conn, dir string) bool {
 			f.fired = true
 			n.sim.Fault("conn-" + f.Kind)
 			n.sim.Logf("fault %s %s at %d", f.Kind, l.name, l.delivered)
-			c.Kill(f.Kind)
+			if f.Kind == "freeze" {
+				l.freeze(16)
+			} else {
+				c.Kill(f.Kind)
+			}
 			if n.OnFault != nil {
 				n.OnFault(c.ID, dir, f.Kind)
 			}
@@ -467,7 +510,7 @@ func (n *Net) Options(now time.Time) []verifsim.Option {
 	for _, l := range links {
 		l := l
 		l.mu.Lock()
-		ready := len(l.inflight) > 0 && !l.closed && !l.reset && !l.notBefore[0].After(now)
+		ready := len(l.inflight) > 0 && !l.closed && !l.reset && !l.frozen && !l.notBefore[0].After(now)
 		eofPending := len(l.inflight) == 0 && l.wclosed && !l.closed
 		pendingFault := false
 		for _, f := range l.faults {
@@ -560,7 +603,7 @@ func (n *Net) InFlight() bool {
 	defer n.mu.Unlock()
 	for _, l := range n.links {
 		l.mu.Lock()
-		x := len(l.inflight) > 0 && !l.closed && !l.reset
+		x := len(l.inflight) > 0 && !l.closed && !l.reset && !l.frozen
 		l.mu.Unlock()
 		if x {
 			return true
@@ -616,7 +659,7 @@ func (n *Net) HealSilent() {
 	n.mu.Unlock()
 	for _, c := range cs {
 		c.in.mu.Lock()
-		silent := c.in.silent || c.out.silent
+		silent := c.in.silent || c.out.silent || c.in.frozen || c.out.frozen
 		c.in.mu.Unlock()
 		if silent {
 			c.Kill("reset")
